@@ -625,6 +625,14 @@ theorem C14_cache_key_injective (h1 h2 s1 s2 : Str) (v1 : headerOK h1 = true) (v
 
 example : cacheKey [] ("secret:SELECT 1".toList) ≠ cacheKey "secret".toList "SELECT 1".toList := by decide
 
+/-- in all four simple-table rewrite handlers and both extractor loops the skip-prefix test
+(`shouldSkipTableConversion`) runs on the RESOLVED name, after the quoted-identifier placeholder was
+resolved (regenerated call order + argument). This is what `rewriteKeeps` / `extractSkips` model; testing the
+raw `__IDENT_n__` token on one side only makes the rewriter splice `"pg_x"` that the extractor skipped. -/
+theorem C14_skip_prefix_on_resolved_name :
+    Arc.Generated.C14.skipTestOnResolvedName = [true, true, true, true, true, true] := by
+  decide
+
 /-! ## composition -/
 
 /-- **C14_partial** (the property on the decidable lexical class `inK`, compositional).
